@@ -484,10 +484,12 @@ func (a *A) programMapWriters() {
 				owner = "Demuxer"
 			case ssau.IsNamed(root.Type(), load.RootPath, "Muxer") && len(fs) == 1 && fs[0] == "pm":
 				owner = "Muxer"
+			case len(fs) == 0 && ssau.StoredInField(root, load.RootPath, "Muxer", "pm") != nil:
+				owner = "Muxer" // pm := newProgramMap(); pm.setUnlocked(…); … &Muxer{pm: pm}
 			}
 			key := m.Name() + "/called-from/" + bare(s.Fn)
 			switch {
-			case owner == "Demuxer" && m == set && s.Fn == a.P.Func("Demuxer.updateData"):
+			case owner == "Demuxer" && m == set && (s.Fn == a.P.Func("Demuxer.updateData") || a.onlyCalledFrom(s.Fn, a.P.Func("Demuxer.updateData"), 0)):
 				a.R.OK(rule, key, a.ipos(s.In), "the demuxer's program map is extended only by updateData, from a delivered PAT: the one cross-PID dependency the property allows")
 			case owner == "Muxer" && m == set && s.Fn == a.P.Func("NewMuxer"):
 				a.R.OK(rule, key, a.ipos(s.In), "the muxer's program map is filled by NewMuxer only")
@@ -501,6 +503,27 @@ func (a *A) programMapWriters() {
 			a.R.Floor(rule, "setUnlocked call sites", len(sites), 2)
 		}
 	}
+}
+
+// onlyCalledFrom: every use of g in the package is a call from root, or from a function of which the same holds (a helper carved
+// out of root); g is never used as a value.
+func (a *A) onlyCalledFrom(g, root *ssa.Function, depth int) bool {
+	if g == nil || root == nil || depth > 3 {
+		return false
+	}
+	sites, other := a.callSites(g)
+	if len(other) > 0 || len(sites) == 0 {
+		return false
+	}
+	for _, s := range sites {
+		if s.Fn == root {
+			continue
+		}
+		if s.Fn == g || !a.onlyCalledFrom(s.Fn, root, depth+1) {
+			return false
+		}
+	}
+	return true
 }
 
 // ---------------------------------------------------------------------------------------------
@@ -1023,7 +1046,8 @@ func (a *A) singleEntryMuxerMap(rule, key string, rg *ssa.Range) {
 		ss, _ := a.callSites(m)
 		for _, s := range ss {
 			root, fs := fieldChain(s.In.Common().Args[0])
-			if !(ssau.IsNamed(root.Type(), load.RootPath, "Muxer") && len(fs) == 1 && fs[0] == "pm") {
+			if !(ssau.IsNamed(root.Type(), load.RootPath, "Muxer") && len(fs) == 1 && fs[0] == "pm") &&
+				!(len(fs) == 0 && ssau.StoredInField(root, load.RootPath, "Muxer", "pm") != nil) {
 				continue
 			}
 			if m == unset {
